@@ -19,6 +19,10 @@ def job_ops(job, plan):
         # (registered with max_ilen 0 = unlimited, as the library's own libsamplerate binding does, or with a bound)
         ops.append("setfn %d" % rng.choice([0, 0, 64, 1000, 7]))
         pat = rng.choice([["d1000000"], ["d%d" % (1 + rng.below(3000)) for _ in range(8)], ["d7", "d1", "d4096"]])
+        if rng.chance(.3):
+            # the input function reports failure in mid-stream: from then on nothing more is owed and soxr_delay must say 0
+            # (guard of soxr_delay; Properties/C15.delay_zero_after_error)
+            pat = ["d%d" % (1 + rng.below(800)) for _ in range(1 + rng.below(6))] + ["f"]
         est = int(job["N"] / cr.io_ratio(job["cfg"])) + 10
         ol = max(rng.choice([1, 5, 64, 1000, 4096, est]), est // 150 + 1)
         for i in range(est // ol + 4):
@@ -63,6 +67,7 @@ def oracle(job, tr):
     npoints = 0
     cur = None
     pull_ans = None
+    failed = False
     for l in tr.lines:
         if l.startswith("> cr.proc"):
             t = l.split(); olen = int(t[6]); cur = t
@@ -80,6 +85,8 @@ def oracle(job, tr):
             fed += int(r["id"]); out += int(r["od"])
             if pull_ans is not None:
                 for a in pull_ans[:int(r.get("used", 0))]:
+                    if a == "f":
+                        failed = True
                     if a in ("e", "f"):
                         flushed = True
                     else:
@@ -95,6 +102,12 @@ def oracle(job, tr):
             if cleared:
                 if d != 0:
                     bad.append(("cleared", "delay %r after soxr_clear" % d))
+                continue
+            if failed:
+                # the object carries an error: it will deliver nothing more (C18), so nothing is owed
+                if d != 0:
+                    bad.append(("after-error", "after %d in / %d out the input function reported failure; the stream delivers nothing more, soxr_delay reports %r" % (fed, out, d)))
+                    break
                 continue
             if fed == 0 and out == 0 and not flushed and d != 0:
                 bad.append(("fresh", "delay %r before any input" % d))
